@@ -523,10 +523,7 @@ theorem recvAnn_inv (w : W) (idx : Nat) (r0 : Cand) (h : Inv w) : Inv (recvAnn w
       generalize hr : ({ r0 with src := ps.cfg.srcInfo w.g, ts := w.tick + 1 } : Cand) = r
       have hsrc : r.src = ps.cfg.srcInfo w.g := by subst hr; rfl
       have ha := adjAnnounce_route ps.adj r (inboundRejected w.g ps.cfg r)
-      have h2 := updPeer_inv { w with tick := w.tick + 1 } idx
-        (fun ps' => { ps' with adj := (adjAnnounce ps.adj r (inboundRejected w.g ps.cfg r)).1 })
-        (fun _ => ⟨rfl, rfl, rfl⟩) h1
-      apply propagate_inv _ _ _ _ h2
+      refine propagate_inv _ _ _ _ (updPeer_inv _ idx _ (fun _ => ⟨rfl, rfl, rfl⟩) h1) ?_
       intro _
       -- the updated peer list still contains a peer with this configuration
       refine ⟨_, List.mem_map.mpr ⟨ps, hmem, rfl⟩, ?_⟩
